@@ -985,6 +985,13 @@ func c07Scenarios() []*c07Scn {
 		{name: "fragments", quick: q, thorough: t,
 			envs:   [][]c07Step{{c07F1(1), c07F1(2), c07F2(1), c07Rp(1)}},
 			checks: []int64{3*s + c07Eps, 7 * s / 2}},
+		// fragments of two sessions interleaved on the wire, same packet id and fragment count (ids are
+		// drawn per message by each session: equal ids across sessions are ordinary): each datagram
+		// leaves through its own session's socket, whole (added after the seeded change C07-4: one
+		// reassembler shared by all sessions of a connection)
+		{name: "two-sessions-fragments-interleaved", quick: q, thorough: t,
+			envs:   [][]c07Step{{c07F1(1), c07F1(2), c07F2(2), c07F2(1), c07Rp(1), c07Rp(2)}},
+			checks: []int64{s / 2}},
 		// a datagram of the same id arrives exactly when the sweep closes the session's socket
 		{name: "datagram-races-sweep-close", quick: qd, thorough: t2, twin: td4,
 			envs:   [][]c07Step{{c07Dg(1, "x:1")}, {c07Wc(1), c07Dg(1, "x:1")}},
